@@ -730,7 +730,7 @@ func (d *scnDrv) scanSpace(sp scnSpace, thin int) {
 // bigCount: COUNT values around the server's batch limit (5 000) on a collection that is
 // larger than the limit.  Elements are "00001".."0nnnn", position = number; one world, a few
 // iterations; validated with a trace configuration whose pool is that large.
-func scnBigCount(wd *scnWorld, tw *trace.Writer, n int) (iters, pages int) {
+func scnBigCount(wd *scnWorld, tw *trace.Writer, n int, counts []int) (iters, pages int) {
 	nd := wd.nd
 	for base := 0; base < n; base += 2500 {
 		args := []string{"sadd", "t:big"}
@@ -744,7 +744,7 @@ func scnBigCount(wd *scnWorld, tw *trace.Writer, n int) (iters, pages int) {
 		pop[i] = i + 1
 	}
 	tw.Emit(trace.M{"ev": "reset"})
-	for _, cnt := range []int{5000, 6000} {
+	for _, cnt := range counts {
 		for _, rev := range []bool{false, true} {
 			start, cursor, name := 0, "", "sscan"
 			if rev {
@@ -808,6 +808,7 @@ func scansim(args []string) error {
 	longLen := fs.Int("long", 9900, "length of the shared prefix of the long names")
 	plainScan := fs.Bool("plainscan", false, "include plain SCAN / REVSCAN key spaces (known finding C13-scan-cursor-table-twice)")
 	bigCount := fs.Int("bigcount", 0, "only: COUNT around the batch limit on a set of this many members")
+	bigFull := fs.Bool("bigfull", false, "with -bigcount: COUNT 4999, 5000, 5001, 6000, 20000 instead of 6000 only")
 	collOnly := fs.Bool("collonly", false, "scan only collections (HSCAN/SSCAN/ZSCAN), no key spaces")
 	fs.Parse(args)
 	scnPools = scnBuildPools(*longLen)
@@ -835,7 +836,11 @@ func scansim(args []string) error {
 		}
 	}
 	if *bigCount > 0 {
-		it, pg := scnBigCount(wd, tws[0], *bigCount)
+		counts := []int{6000}
+		if *bigFull {
+			counts = []int{4999, 5000, 5001, 6000, 20000}
+		}
+		it, pg := scnBigCount(wd, tws[0], *bigCount, counts)
 		for _, tw := range tws {
 			tw.Close()
 		}
